@@ -1,32 +1,300 @@
 import Girc.Spec.Inv
 import Girc.Proofs.TagsAux
+import Girc.Proofs.InvAMap
+import Girc.Proofs.InvSort
 /-
-  Base library for the state invariant: association-list and sorted-list lemmas, the invariant of
-  the initial state, and preservation under attribute-only updates.
+  Base library for the state invariant: association-list and sorted-list lemmas (InvAMap.lean,
+  InvSort.lean), the lookup form `InvL` of the invariant, the invariant of the initial state, and
+  preservation under attribute-only updates.
 -/
 namespace Girc.Proofs.InvBase
 open Girc Girc.Model Girc.Spec
 
-theorem inv_init : Inv ({} : St) := by
-  sorry
+/-! ### Lookup form of the invariant
 
-/-- Replacing a user by one with the same nick and channel list preserves the invariant. -/
-theorem inv_setUser_attrs (st : St) (n : Bytes) (u u' : User) (h : Inv st) (hm : (n, u) ∈ st.users)
-    (hn : u'.nick = u.nick) (hc : u'.chans = u.chans) : Inv (setUser st n u') := by
-  sorry
+`InvL cs us` is `Inv` stated on the two maps with `AMap.get?` instead of list membership. Since keys
+are duplicate-free the two coincide (`inv_iff_invL`); `get?` interacts with `set` / `erase` by plain
+rewriting (`get?_set`, `get?_erase`), which makes `InvL` the convenient form for preservation proofs. -/
 
-/-- Replacing a channel by one with the same name and user list preserves the invariant. -/
-theorem inv_setChannel_attrs (st : St) (k : Bytes) (c c' : Channel) (h : Inv st) (hm : (k, c) ∈ st.channels)
-    (hn : c'.name = c.name) (hu : c'.users = c.users) : Inv (setChannel st k c') := by
-  sorry
+structure InvL (cs : AMap Channel) (us : AMap User) : Prop where
+  chanKeys : (AMap.keys cs).Nodup
+  userKeys : (AMap.keys us).Nodup
+  chanKey : ∀ k ch, AMap.get? cs k = some ch → k = fold ch.name
+  userKey : ∀ n u, AMap.get? us n = some u → n = fold u.nick
+  chanToUser : ∀ k ch, AMap.get? cs k = some ch → ∀ n ∈ ch.users, ∃ u, AMap.get? us n = some u ∧ k ∈ u.chans
+  userToChan : ∀ n u, AMap.get? us n = some u → ∀ k ∈ u.chans, ∃ ch, AMap.get? cs k = some ch ∧ n ∈ ch.users
+  chanSorted : ∀ k ch, AMap.get? cs k = some ch → sortedStrict ch.users = true ∧ folded ch.users = true
+  userSorted : ∀ n u, AMap.get? us n = some u → sortedStrict u.chans = true ∧ folded u.chans = true
+  userHasChan : ∀ n u, AMap.get? us n = some u → u.chans ≠ []
+
+theorem _root_.Girc.Spec.Inv.toInvL {st : St} (h : Inv st) : InvL st.channels st.users := by
+  have mc := fun k ch => mem_iff_get? h.chanKeys k ch
+  have mu := fun n u => mem_iff_get? h.userKeys n u
+  exact {
+    chanKeys := h.chanKeys
+    userKeys := h.userKeys
+    chanKey := fun k ch hk => h.chanKey k ch ((mc k ch).mpr hk)
+    userKey := fun n u hn => h.userKey n u ((mu n u).mpr hn)
+    chanToUser := fun k ch hk n hn => by
+      obtain ⟨u, hu, hku⟩ := h.chanToUser k ch ((mc k ch).mpr hk) n hn
+      exact ⟨u, (mu n u).mp hu, hku⟩
+    userToChan := fun n u hn k hk => by
+      obtain ⟨ch, hch, hnc⟩ := h.userToChan n u ((mu n u).mpr hn) k hk
+      exact ⟨ch, (mc k ch).mp hch, hnc⟩
+    chanSorted := fun k ch hk => h.chanSorted k ch ((mc k ch).mpr hk)
+    userSorted := fun n u hn => h.userSorted n u ((mu n u).mpr hn)
+    userHasChan := fun n u hn => h.userHasChan n u ((mu n u).mpr hn) }
+
+/-- Constructor-style lemma: rebuild `Inv` for any state from the lookup form on its two maps. -/
+theorem inv_of_invL {st : St} (h : InvL st.channels st.users) : Inv st := by
+  have mc := fun k ch => mem_iff_get? h.chanKeys k ch
+  have mu := fun n u => mem_iff_get? h.userKeys n u
+  exact {
+    chanKeys := h.chanKeys
+    userKeys := h.userKeys
+    chanKey := fun k ch hk => h.chanKey k ch ((mc k ch).mp hk)
+    userKey := fun n u hn => h.userKey n u ((mu n u).mp hn)
+    chanToUser := fun k ch hk n hn => by
+      obtain ⟨u, hu, hku⟩ := h.chanToUser k ch ((mc k ch).mp hk) n hn
+      exact ⟨u, (mu n u).mpr hu, hku⟩
+    userToChan := fun n u hn k hk => by
+      obtain ⟨ch, hch, hnc⟩ := h.userToChan n u ((mu n u).mp hn) k hk
+      exact ⟨ch, (mc k ch).mpr hch, hnc⟩
+    chanSorted := fun k ch hk => h.chanSorted k ch ((mc k ch).mp hk)
+    userSorted := fun n u hn => h.userSorted n u ((mu n u).mp hn)
+    userHasChan := fun n u hn => h.userHasChan n u ((mu n u).mp hn) }
+
+theorem inv_iff_invL (st : St) : Inv st ↔ InvL st.channels st.users := ⟨Inv.toInvL, inv_of_invL⟩
+
+/-- Rebuild `Inv` after changing both maps (all other fields arbitrary). -/
+theorem inv_of_invL_maps {st : St} {cs : AMap Channel} {us : AMap User} (h : InvL cs us)
+    (hc : st.channels = cs) (hu : st.users = us) : Inv st := by
+  subst hc; subst hu; exact inv_of_invL h
+
+theorem inv_with_maps (st : St) {cs : AMap Channel} {us : AMap User} (h : InvL cs us) :
+    Inv { st with channels := cs, users := us } := inv_of_invL h
+
+/-! ### Projections in convenient forms -/
+
+theorem lookupUser_eq (st : St) (n : Bytes) : st.lookupUser n = AMap.get? st.users (fold n) := rfl
+theorem lookupChannel_eq (st : St) (k : Bytes) : st.lookupChannel k = AMap.get? st.channels (fold k) := rfl
+
+theorem _root_.Girc.Spec.Inv.get?_user_iff {st : St} (h : Inv st) (n : Bytes) (u : User) :
+    AMap.get? st.users n = some u ↔ (n, u) ∈ st.users := (mem_iff_get? h.userKeys n u).symm
+
+theorem _root_.Girc.Spec.Inv.get?_channel_iff {st : St} (h : Inv st) (k : Bytes) (c : Channel) :
+    AMap.get? st.channels k = some c ↔ (k, c) ∈ st.channels := (mem_iff_get? h.chanKeys k c).symm
+
+theorem _root_.Girc.Spec.Inv.lookupUser_mem {st : St} (_h : Inv st) {n : Bytes} {u : User} (hl : st.lookupUser n = some u) :
+    (fold n, u) ∈ st.users := get?_some_mem hl
+
+theorem _root_.Girc.Spec.Inv.lookupChannel_mem {st : St} (_h : Inv st) {k : Bytes} {c : Channel} (hl : st.lookupChannel k = some c) :
+    (fold k, c) ∈ st.channels := get?_some_mem hl
+
+theorem _root_.Girc.Spec.Inv.lookupUser_nick {st : St} (h : Inv st) {n : Bytes} {u : User} (hl : st.lookupUser n = some u) :
+    fold n = fold u.nick := h.userKey _ _ (h.lookupUser_mem hl)
+
+theorem _root_.Girc.Spec.Inv.lookupChannel_name {st : St} (h : Inv st) {k : Bytes} {c : Channel} (hl : st.lookupChannel k = some c) :
+    fold k = fold c.name := h.chanKey _ _ (h.lookupChannel_mem hl)
+
+theorem _root_.Girc.Spec.Inv.lookupUser_chans_ne_nil {st : St} (h : Inv st) {n : Bytes} {u : User} (hl : st.lookupUser n = some u) :
+    u.chans ≠ [] := h.userHasChan _ _ (h.lookupUser_mem hl)
+
+theorem _root_.Girc.Spec.Inv.lookupUser_iff_mem {st : St} (h : Inv st) (n : Bytes) (u : User) :
+    st.lookupUser n = some u ↔ (fold n, u) ∈ st.users := h.get?_user_iff (fold n) u
+
+theorem _root_.Girc.Spec.Inv.lookupChannel_iff_mem {st : St} (h : Inv st) (k : Bytes) (c : Channel) :
+    st.lookupChannel k = some c ↔ (fold k, c) ∈ st.channels := h.get?_channel_iff (fold k) c
+
+/-- A user and a channel that both exist agree on membership. -/
+theorem InvL.mem_users_iff_mem_chans {cs : AMap Channel} {us : AMap User} (h : InvL cs us)
+    {k n : Bytes} {c : Channel} {u : User} (hc : AMap.get? cs k = some c) (hu : AMap.get? us n = some u) :
+    n ∈ c.users ↔ k ∈ u.chans := by
+  constructor
+  · intro hn
+    obtain ⟨u', hu', hk⟩ := h.chanToUser k c hc n hn
+    rw [hu] at hu'; cases hu'; exact hk
+  · intro hk
+    obtain ⟨c', hc', hn⟩ := h.userToChan n u hu k hk
+    rw [hc] at hc'; cases hc'; exact hn
+
+theorem _root_.Girc.Spec.Inv.mem_users_iff_mem_chans {st : St} (h : Inv st) {k n : Bytes} {c : Channel} {u : User}
+    (hc : (k, c) ∈ st.channels) (hu : (n, u) ∈ st.users) : n ∈ c.users ↔ k ∈ u.chans :=
+  h.toInvL.mem_users_iff_mem_chans (mem_get? h.chanKeys hc) (mem_get? h.userKeys hu)
+
+theorem InvL.chans_nodup {cs : AMap Channel} {us : AMap User} (h : InvL cs us) {n : Bytes} {u : User}
+    (hu : AMap.get? us n = some u) : u.chans.Nodup := sortedStrict_nodup (h.userSorted n u hu).1
+
+theorem InvL.users_nodup {cs : AMap Channel} {us : AMap User} (h : InvL cs us) {k : Bytes} {c : Channel}
+    (hc : AMap.get? cs k = some c) : c.users.Nodup := sortedStrict_nodup (h.chanSorted k c hc).1
+
+/-- Keys are folded. -/
+theorem InvL.fold_userKey {cs : AMap Channel} {us : AMap User} (h : InvL cs us) {n : Bytes} {u : User}
+    (hu : AMap.get? us n = some u) : fold n = n := by
+  rw [h.userKey n u hu, fold_idem]
+
+theorem InvL.fold_chanKey {cs : AMap Channel} {us : AMap User} (h : InvL cs us) {k : Bytes} {c : Channel}
+    (hc : AMap.get? cs k = some c) : fold k = k := by
+  rw [h.chanKey k c hc, fold_idem]
+
+/-! ### The initial state, irrelevant fields, attribute-only updates -/
+
+theorem invL_nil : InvL [] [] := by
+  refine ⟨List.nodup_nil, List.nodup_nil, ?_, ?_, ?_, ?_, ?_, ?_, ?_⟩ <;> intro _ _ h <;> cases h
+
+theorem inv_init : Inv ({} : St) := inv_of_invL invL_nil
 
 /-- Fields outside the two maps do not matter. -/
 theorem inv_of_maps_eq (st st' : St) (h : Inv st) (hc : st'.channels = st.channels) (hu : st'.users = st.users) :
     Inv st' := by
-  sorry
+  apply inv_of_invL
+  rw [hc, hu]
+  exact h.toInvL
+
+/-- Replacing a user by one with the same nick and channel list (lookup form). -/
+theorem InvL.setUser_attrs {cs : AMap Channel} {us : AMap User} (h : InvL cs us) {n : Bytes} {u u' : User}
+    (hm : AMap.get? us n = some u) (hn : u'.nick = u.nick) (hc : u'.chans = u.chans) :
+    InvL cs (AMap.set us n u') := by
+  have hget : ∀ x v, AMap.get? (AMap.set us n u') x = some v →
+      ∃ w, AMap.get? us x = some w ∧ v.nick = w.nick ∧ v.chans = w.chans := by
+    intro x v hx
+    rw [get?_set] at hx
+    by_cases e : x = n
+    · rw [if_pos e] at hx; cases hx; subst e; exact ⟨u, hm, hn, hc⟩
+    · rw [if_neg e] at hx; exact ⟨v, hx, rfl, rfl⟩
+  have hget' : ∀ x w, AMap.get? us x = some w →
+      ∃ v, AMap.get? (AMap.set us n u') x = some v ∧ v.nick = w.nick ∧ v.chans = w.chans := by
+    intro x w hx
+    rw [get?_set]
+    by_cases e : x = n
+    · rw [if_pos e]; subst e; rw [hm] at hx; cases hx; exact ⟨u', rfl, hn, hc⟩
+    · rw [if_neg e]; exact ⟨w, hx, rfl, rfl⟩
+  exact {
+    chanKeys := h.chanKeys
+    userKeys := keys_set_nodup h.userKeys n u'
+    chanKey := h.chanKey
+    userKey := fun x v hx => by
+      obtain ⟨w, hw, e1, _⟩ := hget x v hx
+      rw [e1]; exact h.userKey x w hw
+    chanToUser := fun k ch hk x hx => by
+      obtain ⟨w, hw, hkw⟩ := h.chanToUser k ch hk x hx
+      obtain ⟨v, hv, _, e2⟩ := hget' x w hw
+      exact ⟨v, hv, e2 ▸ hkw⟩
+    userToChan := fun x v hx k hk => by
+      obtain ⟨w, hw, _, e2⟩ := hget x v hx
+      exact h.userToChan x w hw k (e2 ▸ hk)
+    chanSorted := h.chanSorted
+    userSorted := fun x v hx => by
+      obtain ⟨w, hw, _, e2⟩ := hget x v hx
+      rw [e2]; exact h.userSorted x w hw
+    userHasChan := fun x v hx => by
+      obtain ⟨w, hw, _, e2⟩ := hget x v hx
+      rw [e2]; exact h.userHasChan x w hw }
+
+/-- Replacing a channel by one with the same name and user list (lookup form). -/
+theorem InvL.setChannel_attrs {cs : AMap Channel} {us : AMap User} (h : InvL cs us) {k : Bytes} {c c' : Channel}
+    (hm : AMap.get? cs k = some c) (hn : c'.name = c.name) (hu : c'.users = c.users) :
+    InvL (AMap.set cs k c') us := by
+  have hget : ∀ x v, AMap.get? (AMap.set cs k c') x = some v →
+      ∃ w, AMap.get? cs x = some w ∧ v.name = w.name ∧ v.users = w.users := by
+    intro x v hx
+    rw [get?_set] at hx
+    by_cases e : x = k
+    · rw [if_pos e] at hx; cases hx; subst e; exact ⟨c, hm, hn, hu⟩
+    · rw [if_neg e] at hx; exact ⟨v, hx, rfl, rfl⟩
+  have hget' : ∀ x w, AMap.get? cs x = some w →
+      ∃ v, AMap.get? (AMap.set cs k c') x = some v ∧ v.name = w.name ∧ v.users = w.users := by
+    intro x w hx
+    rw [get?_set]
+    by_cases e : x = k
+    · rw [if_pos e]; subst e; rw [hm] at hx; cases hx; exact ⟨c', rfl, hn, hu⟩
+    · rw [if_neg e]; exact ⟨w, hx, rfl, rfl⟩
+  exact {
+    chanKeys := keys_set_nodup h.chanKeys k c'
+    userKeys := h.userKeys
+    chanKey := fun x v hx => by
+      obtain ⟨w, hw, e1, _⟩ := hget x v hx
+      rw [e1]; exact h.chanKey x w hw
+    userKey := h.userKey
+    chanToUser := fun x v hx n hnv => by
+      obtain ⟨w, hw, _, e2⟩ := hget x v hx
+      exact h.chanToUser x w hw n (e2 ▸ hnv)
+    userToChan := fun n u hnu x hx => by
+      obtain ⟨w, hw, hnw⟩ := h.userToChan n u hnu x hx
+      obtain ⟨v, hv, _, e2⟩ := hget' x w hw
+      exact ⟨v, hv, e2 ▸ hnw⟩
+    chanSorted := fun x v hx => by
+      obtain ⟨w, hw, _, e2⟩ := hget x v hx
+      rw [e2]; exact h.chanSorted x w hw
+    userSorted := h.userSorted
+    userHasChan := h.userHasChan }
+
+/-- Replacing a user by one with the same nick and channel list preserves the invariant. -/
+theorem inv_setUser_attrs (st : St) (n : Bytes) (u u' : User) (h : Inv st) (hm : (n, u) ∈ st.users)
+    (hn : u'.nick = u.nick) (hc : u'.chans = u.chans) : Inv (setUser st n u') :=
+  inv_of_invL (st := setUser st n u') (h.toInvL.setUser_attrs (mem_get? h.userKeys hm) hn hc)
+
+/-- Replacing a channel by one with the same name and user list preserves the invariant. -/
+theorem inv_setChannel_attrs (st : St) (k : Bytes) (c c' : Channel) (h : Inv st) (hm : (k, c) ∈ st.channels)
+    (hn : c'.name = c.name) (hu : c'.users = c.users) : Inv (setChannel st k c') :=
+  inv_of_invL (st := setChannel st k c') (h.toInvL.setChannel_attrs (mem_get? h.chanKeys hm) hn hu)
+
+/-! ### The executable check -/
+
+theorem nodupKeys_iff (l : List Bytes) : nodupKeys l = true ↔ l.Nodup := by
+  induction l with
+  | nil => simp [nodupKeys]
+  | cons x xs ih => simp [nodupKeys, ih]
+
+theorem userCheck_iff (us : AMap User) (n k : Bytes) :
+    (match AMap.get? us n with | some u => u.chans.contains k | none => false) = true ↔
+      ∃ u, AMap.get? us n = some u ∧ k ∈ u.chans := by
+  cases AMap.get? us n with
+  | none => simp
+  | some u => simp
+
+theorem chanCheck_iff (cs : AMap Channel) (k n : Bytes) :
+    (match AMap.get? cs k with | some ch => ch.users.contains n | none => false) = true ↔
+      ∃ ch, AMap.get? cs k = some ch ∧ n ∈ ch.users := by
+  cases AMap.get? cs k with
+  | none => simp
+  | some ch => simp
+
+/-- The executable check, unfolded into the lookup form. -/
+theorem invB_iff_invL (st : St) : invB st = true ↔ InvL st.channels st.users := by
+  unfold invB
+  simp only [Bool.and_eq_true, List.all_eq_true, nodupKeys_iff, beq_iff_eq,
+    Bool.not_eq_true', List.isEmpty_eq_false_iff]
+  constructor
+  · rintro ⟨⟨⟨hcn, hun⟩, hC⟩, hU⟩
+    have mc := fun k ch => mem_iff_get? hcn k ch
+    have mu := fun n u => mem_iff_get? hun n u
+    exact {
+      chanKeys := hcn
+      userKeys := hun
+      chanKey := fun k ch hk => (hC (k, ch) ((mc k ch).mpr hk)).1.1.1
+      userKey := fun n u hn => (hU (n, u) ((mu n u).mpr hn)).1.1.1.1
+      chanToUser := fun k ch hk n hn =>
+        (userCheck_iff st.users n k).mp ((hC (k, ch) ((mc k ch).mpr hk)).2 n hn)
+      userToChan := fun n u hn k hk =>
+        (chanCheck_iff st.channels k n).mp ((hU (n, u) ((mu n u).mpr hn)).2 k hk)
+      chanSorted := fun k ch hk => ⟨(hC (k, ch) ((mc k ch).mpr hk)).1.1.2, (hC (k, ch) ((mc k ch).mpr hk)).1.2⟩
+      userSorted := fun n u hn =>
+        ⟨(hU (n, u) ((mu n u).mpr hn)).1.1.1.2, (hU (n, u) ((mu n u).mpr hn)).1.1.2⟩
+      userHasChan := fun n u hn => (hU (n, u) ((mu n u).mpr hn)).1.2 }
+  · intro h
+    refine ⟨⟨⟨h.chanKeys, h.userKeys⟩, ?_⟩, ?_⟩
+    · rintro ⟨k, ch⟩ hm
+      have hk := mem_get? h.chanKeys hm
+      exact ⟨⟨⟨h.chanKey k ch hk, (h.chanSorted k ch hk).1⟩, (h.chanSorted k ch hk).2⟩,
+        fun x hx => (userCheck_iff st.users x k).mpr (h.chanToUser k ch hk x hx)⟩
+    · rintro ⟨n, u⟩ hm
+      have hn := mem_get? h.userKeys hm
+      exact ⟨⟨⟨⟨h.userKey n u hn, (h.userSorted n u hn).1⟩, (h.userSorted n u hn).2⟩, h.userHasChan n u hn⟩,
+        fun x hx => (chanCheck_iff st.channels x n).mpr (h.userToChan n u hn x hx)⟩
 
 /-- The executable check decides the invariant. -/
-theorem invB_iff (st : St) : invB st = true ↔ Inv st := by
-  sorry
+theorem invB_iff (st : St) : invB st = true ↔ Inv st :=
+  (invB_iff_invL st).trans (inv_iff_invL st).symm
 
 end Girc.Proofs.InvBase
